@@ -31,6 +31,25 @@ def closedFormDev (ts : TS) (v i : Int) : Float :=
 
 def within (x : Int) (tol : Int) : Bool := decide (absI x ≤ tol)
 
+/-- `Ord for Epoch` / `PartialEq for Epoch` with the dynamical conversions (hardware floats) -/
+def cmpF (a b : Ep) : Option Int :=
+  if a.ts.usesLeapSeconds ∧ ¬ b.ts.usesLeapSeconds then (toTimeScaleF a b.ts).map (fun a' => Dur.cmp a'.dur b.dur)
+  else (toTimeScaleF b a.ts).map (fun b' => Dur.cmp a.dur b'.dur)
+
+def eqF (a b : Ep) : Option Bool :=
+  if a.ts = b.ts then some (decide (Dur.cmp a.dur b.dur = 0))
+  else if a.ts.usesLeapSeconds ≠ b.ts.usesLeapSeconds ∧ a.ts.usesLeapSeconds then
+    (toTimeScaleF a b.ts).map (fun a' => decide (Dur.cmp a'.dur b.dur = 0))
+  else (toTimeScaleF b a.ts).map (fun b' => decide (Dur.cmp a.dur b'.dur = 0))
+
+/-- TAI instant of an epoch; for ET/TDB estimated from the property's closed form (C07: the conversions are
+    within 30 ns of it), exact for the other scales -/
+def instEst (e : Ep) : Option Int :=
+  if e.ts == TS.ET || e.ts == TS.TDB then
+    let v := sval e.dur
+    some (v + j2000ns - truncToInt (closedForm e.ts (toSecondsF (Dur.fromTotal v)) + 0.5))
+  else instOf e
+
 def handle (op : String) (args : List String) (impl : Impl) : Option Ans :=
   match op, args with
   | "dyn_to", [e, ts] => do
@@ -82,12 +101,37 @@ def handle (op : String) (args : List String) (impl : Impl) : Option Ans :=
       | some x, _ => ("ok " ++ showDur (Dur.sub a.dur x.dur) ++ " " ++ showEp x, "differs")
       | none, _ => ("unmodelled", "unmodelled")
     pure { model := mstr, spec := sp, branch := "ediff9:" ++ a.ts.name ++ "-" ++ b.ts.name ++ ":" ++ note }
+  | "ecmp_dyn", [a, b] => do
+    -- C12 with ET/TDB operands: "the statement holds for instants more than 100 ns apart"; the instants of
+    -- dynamical operands are known to 30 ns each (C07), so the verdict is demanded from 170 ns on
+    let a ← parseEp? a; let b ← parseEp? b
+    let ia ← instEst a; let ib ← instEst b
+    let gap := ia - ib
+    let far := decide (absI gap ≥ 170)
+    let wc : Int := if gap < 0 then -1 else 1
+    let sp := if !far then noPanic impl else match impl with
+      | .ok [c, e, rc, re, lt, gt] =>
+        verdict [("cmp", c == toString wc), ("eq", e == "0"), ("reverse_cmp", rc == toString (-wc)), ("reverse_eq", re == "0"),
+                 ("lt", lt == bool01 (wc == -1)), ("gt", gt == bool01 (wc == 1))]
+      | .other w => "FAIL:" ++ w
+      | _ => "FAIL:decode"
+    let m := match cmpF a b, eqF a b, cmpF b a, eqF b a with
+      | some c, some e, some rc, some re =>
+        "ok " ++ toString c ++ " " ++ bool01 e ++ " " ++ toString rc ++ " " ++ bool01 re ++ " " ++ bool01 (c == -1) ++ " " ++ bool01 (c == 1)
+      | _, _, _, _ => "unmodelled"
+    pure { model := m, spec := sp,
+           branch := "ecmp_dyn:" ++ a.ts.name ++ "," ++ b.ts.name ++ ":" ++
+             (if !far then "within_170ns" else if absI gap < 2200 then "170ns-2us" else if absI gap < 1000000000 then "<1s" else "far") }
   | "dyn_rt", [e, ts] => do
     let e ← parseEp? e; let ts ← TS.ofString? ts
     let m := (toTimeScaleF e ts).bind (fun x => toTimeScaleF x e.ts)
     let sp := match impl with
       | .ok [r] => (match parseEp? r with
-          | some r => verdict [("scale", r.ts == e.ts), ("round_trip_within_20ns", within (sval r.dur - sval e.dur) 20)]
+          -- the statement gives 20 ns for uniform → ET/TDB → uniform; for the reverse direction (ET/TDB → uniform →
+          -- ET/TDB) only what follows from the 30 ns closed-form clause applied twice is demanded: 60 ns
+          | some r => verdict [("scale", r.ts == e.ts),
+                               (if e.ts == TS.ET || e.ts == TS.TDB then "reverse_round_trip_within_60ns" else "round_trip_within_20ns",
+                                within (sval r.dur - sval e.dur) (if e.ts == TS.ET || e.ts == TS.TDB then 60 else 20))]
           | none => "FAIL:decode")
       | .other w => "FAIL:" ++ w
       | _ => "FAIL:decode"
